@@ -159,6 +159,31 @@ func famC16(g *Gen, o *Out, n int, thorough bool) {
 			case k < 9:
 				o.Line(fmt.Sprintf("get c=%x", b.C.Bytes()), "r="+st.do("get", b.C, nil, nil))
 			default:
+				if api == "bs" && !wo.v1 && g.pick(3) == 0 {
+					// FinalizeReadOnly with an injected failure, then the calls a caller would try next: none may
+					// claim success, lookups still answer, and the file is what the failed call left
+					fc.arm(g.pick(14), g.pick(6))
+					r := st.do("finro", cid.Undef, nil, nil)
+					if fc.fired {
+						if r == "ok" {
+							r = "ok-despite-failed-write"
+						} else {
+							r = "other"
+						}
+						o.Line(fmt.Sprintf("finro fail=%d:%d", fc.k, fc.firedN), "r="+r)
+						fc.disarm()
+						o.Line("finro", "r="+st.do("finro", cid.Undef, nil, nil))
+						o.Line(fmt.Sprintf("put c=%x d=%s", b.C.Bytes(), hexOr(b.D)), "r="+st.do("put", b.C, b.D, nil))
+						o.Line(fmt.Sprintf("has c=%x", b.C.Bytes()), "r="+st.do("has", b.C, nil, nil))
+						o.Line("finalize", "r="+st.do("finalize", cid.Undef, nil, nil))
+						dead = true
+					} else {
+						o.Line("finro", "r="+r)
+					}
+					fc.disarm()
+					o.Count("bs/finro-fault/" + fmt.Sprint(fc.fired))
+					continue
+				}
 				if g.pick(3) == 0 { // Finalize with an injected failure: nothing can succeed afterwards
 					fc.arm(g.pick(14), g.pick(6))
 					r := st.do("finalize", cid.Undef, nil, nil)
